@@ -15,7 +15,7 @@ def ka_nontrivial(op, out):
 
 register(Prop(
     'C19', 'Mqtt.Properties.C19', ['ka'],
-    runs=[Run('ka', quick=6, thorough=24, seeds_thorough=3)],
+    runs=[Run('ka', quick=9, thorough=27, seeds_thorough=3)],
     oracle=ka_oracle, nontrivial=ka_nontrivial, spec_total=False,
     assumptions=[
         "real time, timers, net.Conn read deadlines and scheduler latency are outside the model: the arithmetic and the receiver's timed state machine are proved, the clock is trusted",
